@@ -130,7 +130,43 @@ func oraclePots(o *Out, prop string, ps []*pot.Pot, contrib map[int]int64, fold 
 	}
 }
 
+// several tied winners at the top, several folded players at distinct smaller amounts: one pot merged
+// from many levels, odd chips at every level
+func genTieVector(rng *rand.Rand) []PotIn {
+	k := 2 + rng.Intn(4)
+	m := 2 + rng.Intn(4)
+	top := int64(20 + rng.Intn(200))
+	var in []PotIn
+	for i := 0; i < k; i++ {
+		in = append(in, PotIn{Wager: top, Score: 9, Bankroll: top + int64(rng.Intn(5))})
+	}
+	used := map[int64]bool{}
+	for i := 0; i < m; i++ {
+		w := int64(1 + rng.Intn(int(top)-1))
+		if rng.Intn(2) == 0 {
+			w = int64(1 + rng.Intn(12))
+		}
+		if used[w] && rng.Intn(3) > 0 {
+			w++
+		}
+		used[w] = true
+		in = append(in, PotIn{Wager: w, Fold: true, Bankroll: w + int64(rng.Intn(5))})
+	}
+	if rng.Intn(3) == 0 {
+		in = append(in, PotIn{Wager: int64(1 + rng.Intn(int(top))), Score: 1 + rng.Intn(8), Bankroll: top})
+	}
+	rng.Shuffle(len(in), func(i, j int) { in[i], in[j] = in[j], in[i] })
+	perm := rng.Perm(len(in))
+	for i := range in {
+		in[i].Idx = perm[i]
+	}
+	return in
+}
+
 func genVector(rng *rand.Rand) []PotIn {
+	if rng.Intn(4) == 0 {
+		return genTieVector(rng)
+	}
 	n := 1 + rng.Intn(9)
 	if rng.Intn(20) == 0 {
 		n = 10 + rng.Intn(6)
@@ -428,6 +464,7 @@ func settleCase(o *Out, in []PotIn) {
 	}
 	if len(lv) >= 2 || folded || hasTie {
 		o.Distinct("C02", vecCanon(in))
+		o.Distinct("C01", vecCanon(in))
 	}
 	if hasTie {
 		o.Stat("settle.tie")
@@ -437,6 +474,7 @@ func settleCase(o *Out, in []PotIn) {
 	}
 	o.Stat(fmt.Sprintf("settle.n=%d", len(in)))
 	o.Sample("C02", in)
+	o.Sample("C01", in)
 }
 
 func resultObs(b *Obs, r *settlement.Result) {
@@ -467,15 +505,19 @@ func oracleSettle(o *Out, prop string, in []PotIn, r *settlement.Result, replay 
 		changed[p.Idx] = p.Changed
 		sum += p.Changed
 		x := byIdx[p.Idx]
-		if p.Final != x.Bankroll+p.Changed {
-			o.Violate(prop, "final-not-bankroll-plus-change", fmt.Sprintf("player %d", p.Idx), replay)
-		}
-		if -p.Changed > x.Wager {
-			o.Violate(prop, "lost-more-than-put-in", fmt.Sprintf("player %d changed %d contributed %d", p.Idx, p.Changed, x.Wager), replay)
+		// the closing clauses of C01 are statements about the settlement as well
+		for _, pr := range []string{prop, "C01"} {
+			if p.Final != x.Bankroll+p.Changed {
+				o.Violate(pr, "final-not-bankroll-plus-change", fmt.Sprintf("player %d", p.Idx), replay)
+			}
+			if -p.Changed > x.Wager {
+				o.Violate(pr, "lost-more-than-put-in", fmt.Sprintf("player %d changed %d contributed %d", p.Idx, p.Changed, x.Wager), replay)
+			}
 		}
 	}
 	if sum != 0 {
 		o.Violate(prop, "changes-do-not-sum-to-zero", fmt.Sprintf("sum %d", sum), replay)
+		o.Violate("C01", "changes-do-not-sum-to-zero", fmt.Sprintf("sum %d", sum), replay)
 	}
 	lo, hi := refBounds(in)
 	var top, second int64 = -1, -1
